@@ -253,8 +253,6 @@ def roundtrip_extra(pid, lang):
                 continue
             mine += 1
             cls = c["class"]
-            if lang == "fol" and " <- " in c["printed"]:
-                cls = "comparison-before-reverse-implication"
             if cls in known:
                 seen.add(cls)
             else:
@@ -311,7 +309,7 @@ def replay(pid, path):
 
 
 HOOK_COMMITS = ["ffc8b2b"]
-FIX_COMMITS = ["ca17dcd", "3401bdf", "db0baa0", "3af4e16", "b9b9933", "8154c20", "f1b4fb0", "9b44a2c"]
+FIX_COMMITS = ["ca17dcd", "3401bdf", "db0baa0", "3af4e16", "b9b9933", "8154c20", "f1b4fb0", "9b44a2c", "d0885ee"]
 NOT_YET = {}
 
 PROOF_NOTE = ("Trusted: Lean kernel; Semantics/*.lean as the specification; the correspondence harness and serialisers; "
@@ -575,7 +573,7 @@ PROPS = {
         "rule": "as C14 for the target language: formulas (all connectives, quantifier prefixes, chained comparisons, sorted variables and constants, predicate names notify / forallx / existsx / andy / orb / input / spec) "
                 "as theories; user guides and specifications are covered by the text correspondence of their printers",
         "level_text": "Partial: printers modelled exactly; quantified_atomic proved (parentheses exactly when the atomic body begins with a variable); precedence behaviour kernel-checked on instances; the pest parser is not "
-                      "modelled, the round trip is explored; two genuine defects repaired (db0baa0, 3af4e16), one known finding (comparison before `<-`).",
+                      "modelled, the round trip is explored; three genuine defects repaired (db0baa0, 3af4e16, d0885ee: comparison_after_reverse_implication proved for the repaired printer).",
         "level_note": PROOF_NOTE + " pest's PEG matching and Pratt parser are exercised, not modelled.",
         "technique": "Lean 4 (printer model + lemma) + differential correspondence (text) + round-trip exploration on the real parser",
         "design_ref": "DESIGN.md 6/C15",
